@@ -138,6 +138,23 @@ def run_case(case):
                 if np.any(np.abs(a - full.flat[0]) > (8 + 4 * abs(math.log(full.flat[0]))) * EPS * abs(full.flat[0])):
                     bad.append((name + '/constant', '%s does not reproduce the constant %r on axis %d' % (name, full.flat[0], k)))
         cov['constant_reproduction'] = 1
+    # two results alive at the same time (k_face and D_face of one model): the first is not touched by the second evaluation
+    if fam in ('positive', 'arbitrary', 'poszeros'):
+        uvar = gen.facevar(pf, m, u_arrs)
+        flist = [('linearMean', pf.linearMean), ('arithmeticMean', pf.arithmeticMean), ('upwindMean', lambda p_: pf.upwindMean(p_, uvar))]
+        if fam != 'arbitrary':
+            flist += [('geometricMean', pf.geometricMean), ('harmonicMean', pf.harmonicMean)]
+        other = np.abs(full[::-1].copy() if g.nd == 1 else full.copy()) * 1.7 + 0.3
+        for name, f in flist:
+            with np.errstate(all='ignore'):
+                r1 = f(pf.CellVariable(m, full.copy()))
+                keep = [np.array(x_, copy=True) for x_ in gen.facevar_arrays(r1, g.nd)]
+                r2 = f(pf.CellVariable(m, other.copy()))
+            for k in range(g.nd):
+                a1, a2 = gen.facevar_arrays(r1, g.nd)[k], gen.facevar_arrays(r2, g.nd)[k]
+                if not np.array_equal(np.asarray(a1), keep[k], equal_nan=True) or (np.size(a1) and np.shares_memory(a1, a2)):
+                    bad.append((name + '/result-overwritten', '%s: the face values returned for one field changed (or share storage) when %s was evaluated for another field on the same grid (axis %d)' % (name, name, k)))
+            cov['results_alive_probes'] = cov.get('results_alive_probes', 0) + 1
     # locality by basis perturbation (a few random cells)
     if case.get('locality', True):
         phi = pf.CellVariable(m, full.copy())
@@ -259,6 +276,8 @@ def floors(agg, tier):
     for geo in ('nano', 'jitter', 'mega', 'int', 'offset', 'negative', 'wild'):
         if agg['cov'].get('geo:' + geo, 0) < 40:
             out.append('geo:%s < 50' % geo)
+    if agg['cov'].get('results_alive_probes', 0) < 500:
+        out.append('results_alive_probes < 500')
     for name in ('linear', 'arith', 'geo', 'harm', 'upwind'):
         if agg['cov'].get('faces_checked:' + name, 0) < 1000:
             out.append('faces_checked:%s < 1000' % name)
